@@ -84,6 +84,8 @@ THEOREMS = [
     'C01.raw_readback', 'C01.raw_definition_unique', 'C01.lenOf_scale', 'C01.angleDeg_scale',
     # statement audit: the six getters a b c alpha beta gamma in one statement (lengths and angles of the vectors)
     'C01.lenOf_sq', 'C01.lenOf_pos', 'C01.abc_getters_spec',
+    # the face exemption of the comparison is exactly "closer than the bound to a face"
+    'C01.faceMargin_le_iff', 'C01.faceMargin_pos_decides',
 ]
 PARTIAL = {
     'rounding': 'theorems are exact (field / real-number) statements: lengths, angles IN DEGREES and both square roots are now inside the '
